@@ -3,7 +3,7 @@ import OptunaVerif.Model.FileLock
 /-! Sub-driver `filelock`: replays a schedule on the small-step lock model (C07 / C05).
 Request : {"kind":"symlink"|"open", "grace":g|null, "n":workers, "events":[["s",w] | ["t"] | ["c",w], …]}
 Response: {"steps":[{"call":…, "res":…, "val":…, "lock":[owner,stamp]|null, "tmps":[[by,owner],…],
-                     "holders":[…], "now":t, "tgt":m, "liveTakeover":bool}, …],
+                     "holders":[…], "now":t, "liveTakeover":bool}, …],
            "safe":bool, "failed":[per worker number of RuntimeErrors of release()], "pcs":[…]} -/
 open Lean
 namespace Driver.Sub.FileLock
@@ -32,8 +32,8 @@ def labelJson (cfg : Cfg) : Label → List (String × Json)
   | .createOk => [("call", match cfg.kind with | .symlink => "symlink" | .openExcl => "open"), ("res", "ok")]
   | .createExists => [("call", match cfg.kind with | .symlink => "symlink" | .openExcl => "open"), ("res", "EEXIST")]
   | .closed => [("call", "close"), ("res", "ok")]
-  | .statOk m => [("call", "stat"), ("res", "ok"), ("val", natJ m)]
-  | .statGone => [("call", "stat"), ("res", "ENOENT")]
+  | .statOk m => [("call", match cfg.kind with | .symlink => "lstat" | .openExcl => "stat"), ("res", "ok"), ("val", natJ m)]
+  | .statGone => [("call", match cfg.kind with | .symlink => "lstat" | .openExcl => "stat"), ("res", "ENOENT")]
   | .renameOk o => [("call", "rename"), ("res", "ok"), ("val", natJ o)]
   | .renameGone => [("call", "rename"), ("res", "ENOENT")]
   | .unlinkOk => [("call", "unlink"), ("res", "ok")]
@@ -52,7 +52,7 @@ def stateJson (st : St) : List (String × Json) :=
             | none => Json.null),
    ("tmps", Json.arr (st.sh.tmps.map (fun t => Json.arr #[natJ t.by_, natJ t.owner])).toArray),
    ("holders", Json.arr ((liveHolders st).map natJ).toArray),
-   ("now", natJ st.sh.now), ("tgt", natJ st.sh.tgt)]
+   ("now", natJ st.sh.now)]
 
 def replay (cfg : Cfg) : St → List Ev → List Json → List Json × St
   | st, [], acc => (acc.reverse, st)
@@ -74,7 +74,7 @@ def scenarioJson (s : Scenario) : Json :=
 def scenarios : List (String × Scenario) :=
   [("f13Open", f13Open), ("f13Symlink", f13Symlink), ("f13SymlinkSequential", f13SymlinkSequential),
    ("symlinkAfterTakeover", symlinkAfterTakeover), ("symlinkHandover", symlinkHandover),
-   ("stalledWaiter", stalledWaiter), ("soloTakeoverOpen", soloTakeoverOpen),
+   ("stalledWaiter", stalledWaiter), ("stalledWaiterSymlink", stalledWaiterSymlink), ("soloTakeoverOpen", soloTakeoverOpen),
    ("soloTakeoverSymlink", soloTakeoverSymlink)]
 
 def handle (j : Json) : Json :=
